@@ -13,7 +13,7 @@ import (
 
 // C11 — reload never interrupts service on retained listeners.
 func init() {
-	Register(&Scenario{Name: "c11", Prop: "C11", MaxSteps: 1000000, Run: runC11})
+	Register(&Scenario{Name: "c11", Prop: "C11", MaxSteps: 1000000, Run: runC11, PanicIsViolation: true})
 }
 
 func runC11(rc *RunCtx) {
@@ -295,6 +295,31 @@ func runC11(rc *RunCtx) {
 	}
 	for i := 0; i < nShots; i++ {
 		launch(both[G.Draw(len(both))], false)
+	}
+	// Strays: connections to the version-specific listeners, which come and go
+	// with the reloads. Nothing is claimed about them (their address is not in
+	// both configurations); but whatever the server does with them happens inside
+	// the process that also serves the retained addresses.
+	for i, n := 0, G.Draw(4); i < n; i++ {
+		i := i
+		port := 9200 + G.Draw(nVer)
+		delay := time.Duration(G.Draw(10)) * time.Millisecond
+		j := jitter(G)
+		k := extra[0]
+		simrt.GoDaemon(fmt.Sprintf("c11-stray-%d", i), func() {
+			simrt.Sleep(delay)
+			j()
+			cc, err := w.Connect(&net.TCPAddr{IP: net.IPv4(198, 18, 33, byte(i+1)).To4(), Port: 36000 + i}, net.IPv4(127, 0, 0, 1).To4(), port)
+			if err != nil {
+				return
+			}
+			simrt.Probe("stray_connection_to_a_listener_that_comes_and_goes")
+			enc := newEncoder(k)
+			cc.Write(enc.Chunk(socksAddr(fmt.Sprintf("%s:7000", tgtIP))))
+			cc.CloseWrite()
+			readAll(cc)
+			cc.Close()
+		})
 	}
 	// ---- the reloads ----
 	simrt.GoNamed("c11-reloader", func() {
